@@ -6,6 +6,7 @@ import (
 	"fmt"
 	"strings"
 	"sync"
+	"time"
 
 	"github.com/koron-go/z80"
 	"github.com/koron-go/z80/verifsim/gen"
@@ -459,6 +460,31 @@ func c10RunResume(w *C10World, env *Env) *Violation {
 	}
 	if err, over := run(m); err != nil || over != nil || m.CPU.PC != w.Prog.HaltAddr {
 		return nil // (a program that does not park on its final HALT within the budget: not this pass)
+	}
+	// the same Run on the library's DumbMemory (ports on the same kind of device): what Run does may not
+	// depend on which implementation returns the bytes
+	{
+		d := c10Machine(&w2)
+		dm := make(z80.DumbMemory, 65536)
+		copy(dm, d.Bus.Mem[:])
+		d.CPU.Memory = dm
+		type res struct{ err error }
+		ch := make(chan res, 1)
+		go func() { ch <- res{d.CPU.Run(context.Background())} }()
+		select {
+		case r := <-ch:
+			if r.err != nil || d.CPU.States != m.CPU.States || d.CPU.HALT != m.CPU.HALT {
+				return viol("memory-type-independence", "Run to the final HALT on the library's DumbMemory ends differently from the same Run on a plain 64 KiB device with equal contents (device!=DumbMemory): err %v%s", r.err, world.DiffStates(m.CPU.States, d.CPU.States, false))
+			}
+			for i := range dm {
+				if dm[i] != m.Bus.Mem[i] {
+					return viol("memory-type-independence", "Run to the final HALT: memory[%04x]=%02x on the plain device, %02x on the library's DumbMemory", i, m.Bus.Mem[i], dm[i])
+				}
+			}
+			env.Fire("run-to-halt-on-DumbMemory")
+		case <-time.After(30 * time.Second):
+			return viol("memory-type-independence", "Run on the library's DumbMemory did not reach the final HALT within 30 s of real time; on a plain device it parks at %04x", w.Prog.HaltAddr)
+		}
 	}
 	h := w.Prog.HaltAddr
 	m.Bus.Mem[h], m.Bus.Mem[h+1], m.Bus.Mem[h+2], m.Bus.Mem[h+3] = 0x00, 0x00, 0x00, 0x76
